@@ -941,7 +941,6 @@ func ruleF7(c *Ctx) {
 
 var _ = sort.Strings
 
-
 // paramModeQuery: the parameter is the receiver of a mode-dependent query (or of GetBitMode) in
 // the function that declares it.
 func paramModeQuery(prm *ssa.Parameter) string {
@@ -961,7 +960,6 @@ func paramModeQuery(prm *ssa.Parameter) string {
 	}
 	return ""
 }
-
 
 // evalConstBound evaluates an integer expression whose leaves are constants or parameters bound
 // to constants by the given call-site binding.
